@@ -206,17 +206,20 @@ class ProgProp:
                 "hascompare": sorted(cats["hascompare"])})
         return ctx.cache[key]
 
-    def old_file(self, ctx, v, items, ntab=None):
+    def old_file(self, ctx, v, items, ntab=None, raw_code=None):
         """(table, co_code, reference decode, labels, header, payload, string kind) of an assembled old-version file"""
         import struct
         from vf.magicreg import final_magics
         from vf.ref import refmarshal as rm
         case = {"items": items}
         tab = self.old_tables(ctx, v)
-        for it in case.get("items") or [None]:
+        for it in (case.get("items") or [None]) if raw_code is None else []:
             if not isinstance(it, dict) or it.get("op") not in tab.opmap:
                 return None
-        co_code, starts, info = ga.assemble(tab, case["items"])
+        if raw_code is not None:
+            co_code = raw_code
+        else:
+            co_code, starts, info = ga.assemble(tab, case["items"])
         # reference decode
         ref = []
         i, ext, n = 0, 0, len(co_code)
